@@ -112,6 +112,8 @@ class EntryResult:
         self.wall = 0.0
         self.error = None
         self.returns = {}         # entry fn -> repr of return value variants
+        self.visited = {}         # fn name -> set of visited blocks (union over contexts)
+        self.wloops = {}          # fn name -> set of loop headers whose unrolling overflowed
 
 
 def obligation_dict(o):
@@ -120,7 +122,7 @@ def obligation_dict(o):
             "how": o.how}
 
 
-def collect(ai, roots):
+def collect(ai, roots, res=None):
     seen = set()
     obls = []
     calls = {}
@@ -131,6 +133,9 @@ def collect(ai, roots):
             continue
         seen.add(id(r))
         obls.extend(r.obls.values())
+        if res is not None:
+            res.visited.setdefault(r.name, set()).update(r.visited)
+            res.wloops.setdefault(r.name, set()).update(x for x in r.wloops if x is not None)
         for k, v in getattr(r, "calls", {}).items():
             old = calls.get(k)
             if old is None:
@@ -251,7 +256,7 @@ def analyse_entry(facts_path, kind, name):
             roots, rv = run_free(ai, b)
         else:
             roots = run_type(ai, name, types[name])
-        obls, calls = collect(ai, roots)
+        obls, calls = collect(ai, roots, res)
         res.obligations = [obligation_dict(o) for o in obls]
         res.calls = calls
         res.unmodelled = dict(ai.unmodelled)
